@@ -613,8 +613,34 @@ func c04VeneersYAMLCase(r *rng, files map[string]*c04CfgFile, seed uint64, i int
 		Note: fmt.Sprintf("veneers-yaml asbad=%v faults=%d", g.asbad, g.faults)}
 }
 
+// a well-formed pipeline configuration whose only unusual part is a directory of user-provided templates
+func c04TemplateCase(r *rng, seeds []c04Seed, i int) *c04Case {
+	s := pick(r, seeds)
+	o := c04RandomOut(r)
+	lang := pick(r, []string{"go", "python", "typescript", "java", "php"})
+	o.langs = []string{lang}
+	c := c04RunCase(fmt.Sprintf("config/%d", i), "templates="+lang, s, s.files, o)
+	c.Note = "config " + c.Note
+	root, err := c04JParse(c.Files["cog.yaml"])
+	if err == nil {
+		if ls := root.get("output").get("languages"); ls != nil && len(ls.vals) == 1 {
+			key := pick(r, []string{"extra_files_templates", "extra_files_templates", "overrides_templates"})
+			ls.vals[0].vals[0].set(key, c04JArr(c04JStr("%__config_dir%/tpl")))
+			c.Note += " " + key
+		}
+		c.Files["cog.yaml"] = []byte(root.String())
+	}
+	for k := 1 + r.intn(2); k > 0; k-- {
+		c.Files[fmt.Sprintf("tpl/EXTRA%d.md", k)] = []byte(c04GenTemplate(r))
+	}
+	return c
+}
+
 // a pipeline configuration document, with a real schema next to it and generated transformation files
 func c04ConfigCase(r *rng, files map[string]*c04CfgFile, seeds []c04Seed, i int, fault int) *c04Case {
+	if i%4 == 3 {
+		return c04TemplateCase(r, seeds, i)
+	}
 	s := pick(r, seeds)
 	c := &c04Case{ID: fmt.Sprintf("config/%d", i), Kind: "run", Config: "cog.yaml", Files: map[string][]byte{}}
 	for rel, data := range s.files {
@@ -655,6 +681,22 @@ func c04ConfigCase(r *rng, files map[string]*c04CfgFile, seeds []c04Seed, i int,
 					}
 				}
 			}
+			// user-provided templates (extra files): generated from a small grammar of blocks, inclusions
+			// (`include`, with the builtin recursion guard), conditionals and the builtin functions
+			if r.chance(30) {
+				if ls := on.get("languages"); ls != nil && ls.kind == "arr" {
+					for _, l := range ls.vals {
+						if l.kind == "obj" && len(l.keys) == 1 && l.keys[0] != "jsonschema" && l.keys[0] != "openapi" && l.vals[0].kind == "obj" {
+							l.vals[0].set("extra_files_templates", c04JArr(c04JStr("%__config_dir%/tpl")))
+							for k := 1 + r.intn(2); k > 0; k-- {
+								c.Files[fmt.Sprintf("tpl/EXTRA%d.md", k)] = []byte(c04GenTemplate(r))
+							}
+							notes = append(notes, "templates="+l.keys[0])
+							break
+						}
+					}
+				}
+			}
 			doc.set("output", on)
 			notes = append(notes, o.describe())
 		}
@@ -678,6 +720,62 @@ func c04ConfigCase(r *rng, files map[string]*c04CfgFile, seeds []c04Seed, i int,
 	notes = append(notes, fmt.Sprintf("asbad=%v faults=%d", g.asbad || pg.asbad || vg.asbad, g.faults+pg.faults+vg.faults))
 	c.Note = strings.Join(notes, " ")
 	return c
+}
+
+// ---------- templates ----------
+
+// c04GenTemplate draws a text/template document over cog's template functions: a few named blocks
+// whose bodies are sequences of text, field accesses, builtin calls, conditionals on the data, and
+// inclusions of blocks (possibly of themselves) with the current data or a fresh `dict`.
+func c04GenTemplate(r *rng) string {
+	nb := 1 + r.intn(3)
+	name := func() string { return fmt.Sprintf("b%d", r.intn(nb)) }
+	arg := func() string {
+		return pick(r, []string{".", ".", `(dict "leaf" true)`, `(dict "leaf" false)`, `(dict)`, `(dict "leaf" true "n" 1)`, `.Package`, `(dict "x" .)`})
+	}
+	var body func(depth int) string
+	atom := func(depth int) string {
+		switch r.intn(11) {
+		case 0, 1, 2:
+			return fmt.Sprintf(`{{ include "%s" %s }}`, name(), arg())
+		case 3:
+			return pick(r, []string{"text ", "leaf", "# title\n", "x"})
+		case 4:
+			return pick(r, []string{"{{ .leaf }}", "{{ .n }}", "{{ .Package }}", "{{ . }}", "{{ .nope.deeper }}"})
+		case 5:
+			return pick(r, []string{"{{ add1 1 }}", `{{ first (listStr "a") }}`, "{{ first (listStr) }}", `{{ default "d" .x }}`, `{{ ternary "a" "b" true }}`, `{{ dict "k" }}`, `{{ dict 1 2 }}`, "{{ sub1 0 }}", `{{ last (listStr) }}`})
+		case 6, 7:
+			if depth < 2 {
+				return "{{ if .leaf }}" + body(depth+1) + "{{ else }}" + body(depth+1) + "{{ end }}"
+			}
+			return "leaf"
+		case 8:
+			if depth < 2 {
+				return `{{ range (listStr "a" "b") }}` + body(depth+1) + "{{ end }}"
+			}
+			return "r"
+		case 9:
+			// (the native `template` action is not generated: its recursion is bounded by text/template's own
+			// depth limit of 100000, which only fits in Go's default 1 GB stack, not in the workers' 64 MB)
+			return fmt.Sprintf(`{{ include "%s" %s }}`, name(), arg())
+		default:
+			return pick(r, []string{"{{", "{{ end }}", "{{ nope }}", `{{ include "missing" . }}`, "{{ include }}"})
+		}
+	}
+	body = func(depth int) string {
+		var sb strings.Builder
+		for k := 1 + r.intn(3); k > 0; k-- {
+			sb.WriteString(atom(depth))
+			sb.WriteString("\n")
+		}
+		return sb.String()
+	}
+	var sb strings.Builder
+	for i := 0; i < nb; i++ {
+		fmt.Fprintf(&sb, "{{- define \"b%d\" -}}\n%s{{- end -}}\n", i, body(0))
+	}
+	fmt.Fprintf(&sb, `{{ include "b0" %s }}`+"\n", pick(r, []string{".", `(dict "leaf" false)`, `(dict "leaf" true)`, `(dict)`}))
+	return sb.String()
 }
 
 // hand-written configuration documents: one per suspected mechanism
